@@ -1,7 +1,10 @@
 #!/usr/bin/env python3
 """Write the prompts for a wave of seeding sub-agents.
 
-  tools/mk_seed_prompts.py <dir>      (e.g. /tmp/seed6)
+  tools/mk_seed_prompts.py <dir> [<earlier wave dir> ...]     (e.g. /tmp/seed9 /tmp/seed8)
+
+(earlier wave dirs: titles of deliveries not yet kept under /verif/seeded are
+read from <earlier>/<P>/seeded/N.meta.json)
 
 For every claimed property: <dir>/prompt_<P>.txt and a scratch worktree of
 /repo at <dir>/<P>. The prompt holds ONLY the property text from
@@ -59,6 +62,14 @@ def main():
             t = json.load(open(m)).get("title")
             if t:
                 tried.append("- " + " ".join(str(t).split()) + "\n")
+        for extra in sys.argv[2:]:
+            for m in sorted(glob.glob(os.path.join(extra, P, "seeded", "*.meta.json"))):
+                try:
+                    t = json.load(open(m)).get("title")
+                except Exception:
+                    t = None
+                if t and ("- " + " ".join(str(t).split()) + "\n") not in tried:
+                    tried.append("- " + " ".join(str(t).split()) + "\n")
         a = d.get("anchors", {})
         mech = "; ".join("%s (%s)" % (m.get("name"), m.get("where")) for m in a.get("mechanism", []))
         wt = os.path.join(out, P)
